@@ -615,7 +615,21 @@ impl<'o> Compound<'o> {
         let o = out.open[d];
         let span = (out.n - o.head - 1) as u16;
         if o.head < NTOK {
-            out.toks[o.head] = if o.is_map { Tok::map(o.count, span) } else { Tok::seq(o.count, span) };
+            // element counts come out of loops over generated containers whose
+            // length CBMC does not know as a constant: like string lengths, the
+            // count is taken from the template where the template has the same
+            // kind of compound at this position, and a deviation is flagged
+            let mut n = o.count;
+            if let Some(t) = self.ser.template {
+                let tt = t.toks[o.head];
+                if out.tpl_live && ((o.is_map && tt.kind == K::Map) || (!o.is_map && tt.kind == K::Seq)) {
+                    if o.count != tt.n {
+                        out.len_mismatch = true;
+                    }
+                    n = tt.n;
+                }
+            }
+            out.toks[o.head] = if o.is_map { Tok::map(n, span) } else { Tok::seq(n, span) };
         }
         if o.wrapped {
             close_variant(out, o.wrap_map_at, o.wrap_key_at);
